@@ -59,7 +59,8 @@ MultRegion(x, f) ==
          R2 == IF R = <<>> THEN <<>> ELSE StripZ(SubD(F, R))
          m  == IF CmpD(R, R2) <= 0 THEN R ELSE R2        \* distance to the nearest multiple
      IN \/ (R # <<>> /\ CmpD(m \o Zeros(8), X) < 0)        \* non-multiple within relative 1e-8
-        \/ CmpD(X, F \o Zeros(15)) >= 0                    \* quotient beyond ~2^53
+        \/ CmpD(X, F \o Zeros(15)) >= 0
+        \/ (R = <<>> /\ (x.f > 0 \/ f.f > 0))              \* a true multiple with fractional operands: the float quotient may land just BELOW an integer, which the tolerance does not forgive                    \* quotient beyond ~2^53
 
 TypeOK(s, i, dev) ==
   LET plain == \E j \in 1..Len(s.type) : TypeMatch(s.type[j], i)
